@@ -403,9 +403,9 @@ METRICS = [
     {"count_ext_msg": {"v10": 3, "c_1": 0}, "size_ext_msg": {"v10": 12, "c_1": 0}, "activity_ratio": 0.25, "cycles": {"v10": 2}},
     {"count_ext_msg": 4, "size_ext_msg": 17},
 ]
-GENERIC = [None, 0, 2.5, "a", True, [], ["a", 1], ("a", 1), {"k": 1}]
+GENERIC = [None, 0, 2.5, "a", True, [], ["a", 1], ("a", 1), {"k": 1}, tuple(range(12))]
 MS_DOMAINS = [[0, 1], ["a", "b"], [0, 1, 2], [2.5, -1], ["R"], [True, False]]
-PATHS = [[], [("x", 0, 0)], [("x", "a", 0.5), ("v2", 1, 2)], [("x", 1, INF)]]
+PATHS = [[], [("x", 0, 0)], [("x", "a", 0.5), ("v2", 1, 2)], [("x", 1, INF)], [(f"x{i:02d}", i % 2, i) for i in range(12)]]
 
 _OBJ = {}
 
@@ -441,6 +441,10 @@ def objects_menu():
         cdefs.append(ComputationDef(node, adef))
     _OBJ["cdefs"] = cdefs
     return _OBJ
+
+
+# containers with more than 10 items: position keys '10', '11' sort before '2' as strings
+LONG = tuple(f"a{i:02d}" for i in range(12))
 
 
 def field_menu(field, quick):
@@ -483,9 +487,9 @@ def field_menu(field, quick):
         "rep_msg_type": ["replicate_request", "replicate_answer"],
         "budget": [0, 2.5, 7],
         "spent": [0, 1.5],
-        "rq_path": [("a1",), ("a1", "a_10", "a3")],
-        "paths": [[], [(1, ("a1", "a_10"))], [(0.5, ("a1", "a_10")), (3, ("a1", "a3", "a4"))]],
-        "visited": [["a1"], ["a1", "a_10"]],
+        "rq_path": [("a1",), ("a1", "a_10", "a3"), LONG],
+        "paths": [[], [(1, ("a1", "a_10"))], [(0.5, ("a1", "a_10")), (3, ("a1", "a3", "a4"))], [(11, LONG)]],
+        "visited": [["a1"], ["a1", "a_10"], list(LONG)],
         "footprint": [0, 12.5],
         "replica_count": [1, 3],
         "hosts": [[], ["a_10", "a4"]],
